@@ -18,6 +18,13 @@ ops (one per line)
                                   keep using the tree in memory
   checksaved cache                load the copy written by the last saveas (cache_size=cache or None) and walk it like `dump`;
                                   the tree in use is not replaced
+  stash                           put the tree aside (a `new` must follow); combine: tree.combine(stashed tree) -- a fresh root over the two
+  combine                         trees, the larger one (ties: the tree in use) in the first subtree
+  damage kind k                   damage a file of the index the tree was loaded from (version 3-6) and load it again: del / trunc /
+                                  empty (k-th internal node file), delleaf (k-th leaf file), swapleaf (internal <-> leaf file), swap (two
+                                  internal node files).  Not modelled: the model answers `skip` from here on and the oracle demands that
+                                  every later search RAISES or returns the linear scan -- never a wrong answer without an error
+  (dump ends with sv=<n>: the number of signatures tree.signatures() yields -- a second view of the leaves)
   select ksize scaled cont        tree.select(ksize=, scaled=, containment=)  -> ok | err ValueError
   (saveload: ver 1 and 2 are the legacy containers -- list / dict of relative file names, no factory or storage
    record, no metadata on internal nodes, root filter file uncompressed; generated with sparseness 0 and table
@@ -53,6 +60,11 @@ def max_hash(scaled):
 
 SCALED_T = [1, 1, 1, 1, 2, 4, 100, 1000]
 LEGACY_BF = [100, 1000, 4000, 10000]
+
+
+def same(a, b):
+    """the model predicts nothing after a file of the index was damaged"""
+    return a == b or b == "skip"
 
 
 def draw(seed, pos):
@@ -194,6 +206,42 @@ def gen_case(rng, flavour, thorough=False):
                 lines.append("dump")
         lines.append("dump")
         return lines
+    if flavour == "combine":
+        # a second tree with the same d and factory, then combine (either may be the larger), then use the result
+        lines.append("dump")
+        lines.append("stash")
+        lines.append(f"new {d} {bf} {nt}" + ("" if st == 1 else f" {st}"))
+        for _ in range(rng.choice([1, 1, 2, 3, rng.randint(1, 20), rng.randint(1, hi)])):
+            ins()
+        lines.append("dump")
+        if rng.random() < 0.4:
+            lines.append(_query(rng, pool, sketches, st))       # fills the node cache of the tree that will absorb the other
+        lines.append("combine")
+        lines.append("dump")
+        for _ in range(rng.randint(1, 3)):
+            lines.append(_query(rng, pool, sketches, st))
+        if rng.random() < 0.5:
+            lines.append(f"saveload {rng.choice([0, 0, 500])} {rng.randint(0, 999)} {rng.choice([6, 5, 4])} {rng.choice([0, 1, 3])}")
+            lines.append("dump")
+            lines.append(_query(rng, pool, sketches, st))
+        if rng.random() < 0.5:
+            for _ in range(rng.randint(1, 4)):
+                ins()
+            lines.append("dump")
+            lines.append(_query(rng, pool, sketches, st))
+        lines.append("dump")
+        return lines
+    if flavour == "damage":
+        lines.append(f"saveload {rng.choice([0, 0, 0, 300])} {rng.randint(0, 999)} {rng.choice([6, 6, 5, 4, 3])} {rng.choice([0, 0, 1, 2])}")
+        if rng.random() < 0.3:
+            lines.append(_query(rng, pool, sketches, st))
+        kind = rng.choice(["del", "del", "trunc", "empty", "delleaf", "swapleaf", "swap"])
+        lines.append(f"damage {kind} {rng.randint(0, 40)}")
+        for _ in range(rng.randint(2, 5)):
+            lines.append(_query(rng, pool, sketches, st))
+        lines.append("dump")
+        lines.append(_query(rng, pool, sketches, st))
+        return lines
     if flavour == "resave":
         # load from disk, insert, save to another location, keep using the tree in memory (with unloads / cache
         # evictions in between), and look at the saved copy as well
@@ -267,6 +315,8 @@ def parse_dump(line):
         return None
     ent = {}
     for tok in line.split()[1:]:
+        if tok.startswith("sv="):
+            continue
         f = tok.split(":")
         p, kinds = int(f[0]), f[1]
         e = {"kinds": kinds}
@@ -291,13 +341,28 @@ def ancestors(d, p):
     return out
 
 
+def _combine_context(case, upto):
+    comb = [k for k in range(upto + 1) if case[k] == "combine"]
+    if not comb:
+        return None
+    if any(l.startswith("ins") for l in case[comb[-1] + 1: upto + 1]):
+        return "insert-after-combine"
+    news = [k for k in range(comb[-1]) if case[k].startswith("new")]
+    if news and any(l.startswith("search") for l in case[news[-1]: comb[-1]]):
+        return "after-combine-with-cached-nodes"
+    return "after-combine"
+
+
 def context(case, upto):
     """which part of the statement a failure at op `upto` falls under"""
     saves = [k for k in range(upto + 1) if case[k].startswith("saveload")]
     if not saves:
-        return "insert-only"
+        return _combine_context(case, upto) or "insert-only"
     if int(case[saves[-1]].split()[3]) <= 2:
         return "legacy-load"
+    cc = _combine_context(case, upto)
+    if cc:
+        return cc
     if any(l.startswith("saveas") for l in case[saves[-1] + 1: upto + 1]):
         return "after-save-elsewhere"
     sparse = any(int(case[k].split()[1]) > 0 for k in saves)
@@ -329,6 +394,8 @@ def oracle(case, impl):
     out = []
     d = None
     st = 1
+    damaged = None         # kind of the file damage applied to the index the tree was loaded from
+    stash = None
     inserted = {}          # id -> hashes retained, for every insert the implementation accepted
     for k, (op, obs) in enumerate(zip(case, impl)):
         w = op.split()
@@ -338,6 +405,16 @@ def oracle(case, impl):
             d = int(w[1])
             st = int(w[4]) if len(w) > 4 else 1
             inserted = {}
+            damaged = None
+        elif w[0] == "stash" and obs.startswith("ok"):
+            stash = dict(inserted)
+        elif w[0] == "combine" and obs.startswith("ok") and stash is not None:
+            inserted = {**inserted, **stash}
+            stash = None
+        elif w[0] == "damage" and obs != "bad-op":
+            damaged = w[1]
+        elif w[0] == "saveload" and obs.startswith("ok"):
+            damaged = None
         elif w[0] == "ins" and obs.startswith("ok"):
             inserted[int(w[1])] = [int(x) for x in w[2:] if int(x) <= max_hash(st)]
         elif w[0] in ("dump", "checksaved") and d is not None:
@@ -345,10 +422,21 @@ def oracle(case, impl):
             saved_copy = w[0] == "checksaved"
             if saved_copy and not inserted and obs.startswith("err ValueError"):
                 continue            # an empty tree cannot be loaded ("Empty tree!")
-            if ent is None:
+            if damaged is not None and not saved_copy:
+                if ent is None:
+                    continue            # loud: reading the damaged file raised
+                ctx = "damaged-" + damaged
+            elif ent is None:
                 out.append((k, "C13:dump-failed:" + ("saved-copy" if saved_copy else context(case, k)), f"walking the tree raised: {obs}"))
                 continue
-            ctx = "saved-copy" if saved_copy else context(case, k)
+            else:
+                ctx = "saved-copy" if saved_copy else context(case, k)
+            svt = [t for t in obs.split() if t.startswith("sv=")]
+            nleaf = sum(1 for e in ent.values() if "L" in e["kinds"])
+            if svt and int(svt[0][3:]) != nleaf and damaged is None:
+                out.append((k, "C13:views:signatures-stale-manifest",
+                            f"tree.signatures() yields {svt[0][3:]} signatures, the tree holds {nleaf} leaves "
+                            "(the manifest of a loaded tree is not told about insertions)"))
             leaves = {p: e for p, e in ent.items() if "L" in e["kinds"]}
             # structure
             ids = sorted(e["id"] for e in leaves.values())
@@ -401,6 +489,14 @@ def oracle(case, impl):
                 continue
             want = sorted(i for i, hs in inserted.items() if leaf_passes(c, thr, *as_compared(st, sq, q, hs)))
             ctx = context(case, k)
+            if damaged is not None:
+                if obs.startswith("ok"):
+                    got = [int(x) for x in obs[2:].strip().split(",") if x]
+                    if got != want:
+                        out.append((k, "C13:damage:silent-wrong-answer:" + damaged,
+                                    f"after the index lost/garbled a node file ({damaged}) search returned {got[:8]} without any error; "
+                                    f"the stored signatures matching are {want[:8]}"))
+                continue
             if not obs.startswith("ok"):
                 out.append((k, "C13:search-differs:" + ctx, f"search raised {obs} (linear scan finds {want[:8]})"))
             else:
